@@ -1,4 +1,4 @@
-// unit block_index — versatiles_container/src/container/versatiles/types/block_index.rs: decoding the block index
+// unit block_index — versatiles_container/src/container/versatiles/types/block_index.rs: decoding AND encoding the block index
 // (33-byte records into a map keyed by block coordinate) — C16 (sparse index), C19 (arbitrary bytes), C01
 use vstd::prelude::*;
 use std::collections::HashMap;
@@ -41,6 +41,9 @@ impl Blob {
 pub open spec fn listed(bytes: Seq<u8>, n: int, b: BlockDefinition) -> bool {
 	exists|i: int| 0 <= i < n && #[trigger] decode_block(bytes.subrange(33 * i, 33 * i + 33)) == Some(b)
 }
+pub open spec fn rec_block(bytes: Seq<u8>, i: int) -> Option<BlockDefinition> { decode_block(bytes.subrange(33 * i, 33 * i + 33)) }
+// b is one of the blocks of the map
+pub open spec fn in_index(m: Map<TileCoord3, BlockDefinition>, b: BlockDefinition) -> bool { exists|k: TileCoord3| #[trigger] m.contains_key(k) && m[k] == b }
 // BlockDefinition::as_blob: Ok gives the 33-byte record that from_blob decodes to the same block
 // (proved for the real bodies by the complete Kani harness versatiles_codec::block_definition_roundtrip_and_layout)
 #[verifier::external_body]
@@ -64,6 +67,8 @@ impl ValueWriterBlob {
 //@extract struct file="versatiles_container/src/container/versatiles/types/block_index.rs" name="BlockIndex"
 //@end
 impl BlockIndex {
+	// every block is filed under its own block coordinate (established by add_block, hence by from_blob)
+	pub open spec fn keyed(&self) -> bool { forall|k: TileCoord3| self.lookup@.contains_key(k) ==> block_coord(#[trigger] self.lookup@[k]) == k }
 //@extract fn file="versatiles_container/src/container/versatiles/types/block_index.rs" scope="impl BlockIndex" name="new_empty"
 //@ret r
 //@spec
@@ -92,6 +97,8 @@ impl BlockIndex {
 		ensures r is Ok ==> buf@.len() % 33 == 0
 			&& forall|i: int| 0 <= i < buf@.len() / 33 ==> decode_block(#[trigger] buf@.subrange(33 * i, 33 * i + 33)) is Some,
 			r is Ok ==> forall|i: int| 0 <= i < buf@.len() / 33 ==> r.unwrap().lookup@.contains_key(block_coord(decode_block(#[trigger] buf@.subrange(33 * i, 33 * i + 33)).unwrap())),
+			// ... and only then (C16: every valid index is accepted): an error means a torn or undecodable record
+			r is Err ==> !(buf@.len() % 33 == 0 && forall|i: int| 0 <= i < buf@.len() / 33 ==> decode_block(#[trigger] buf@.subrange(33 * i, 33 * i + 33)) is Some),
 			// nothing is invented: every listed block is the decoding of one of the records, filed under its own block coordinate
 			r is Ok ==> forall|k: TileCoord3| r.unwrap().lookup@.contains_key(k) ==> listed(buf@, buf@.len() as int / 33, #[trigger] r.unwrap().lookup@[k]) && block_coord(r.unwrap().lookup@[k]) == k,
 //@loop 1 iter=it
@@ -120,6 +127,10 @@ impl BlockIndex {
 		// of one of them (the order is the map's iteration order, which the format leaves open)
 		ensures r is Ok ==> r.unwrap()@.len() == 33 * self.lookup@.len(),
 			r is Ok ==> forall|k: TileCoord3| self.lookup@.contains_key(k) ==> listed(r.unwrap()@, self.lookup@.len() as int, #[trigger] self.lookup@[k]),
+			// ... nothing else is written: every record decodes to a listed block, and (when every block is filed under its own
+			// coordinate, which add_block/from_blob establish) no two records carry the same block coordinate
+			r is Ok ==> forall|i: int| 0 <= i < self.lookup@.len() ==> (#[trigger] rec_block(r.unwrap()@, i)) is Some && in_index(self.lookup@, rec_block(r.unwrap()@, i).unwrap()),
+			r is Ok && self.keyed() ==> forall|i: int, j: int| 0 <= i < j < self.lookup@.len() ==> block_coord((#[trigger] rec_block(r.unwrap()@, i)).unwrap()) != block_coord((#[trigger] rec_block(r.unwrap()@, j)).unwrap()),
 //@at "for (_coord, block) in self.lookup.iter()"
 		let ghost mut vseq: Seq<(&TileCoord3, &BlockDefinition)> = Seq::empty();
 //@at "Ok(writer.into_blob())"
@@ -128,9 +139,22 @@ impl BlockIndex {
 				let j = choose|j: int| 0 <= j < vseq.len() && *(#[trigger] vseq[j]).0 == k;
 				assert(decode_block(writer.buf@.subrange(33 * j, 33 * j + 33)) == Some(*vseq[j].1));
 			}
+			assert forall|i: int| 0 <= i < self.lookup@.len() implies (#[trigger] rec_block(writer.buf@, i)) is Some && in_index(self.lookup@, rec_block(writer.buf@, i).unwrap()) by {
+				assert(decode_block(writer.buf@.subrange(33 * i, 33 * i + 33)) == Some(*vseq[i].1));
+				assert(self.lookup@.contains_key(*vseq[i].0) && self.lookup@[*vseq[i].0] == *vseq[i].1);
+			}
+			if self.keyed() {
+				assert forall|i: int, j: int| 0 <= i < j < self.lookup@.len() implies block_coord((#[trigger] rec_block(writer.buf@, i)).unwrap()) != block_coord((#[trigger] rec_block(writer.buf@, j)).unwrap()) by {
+					assert(decode_block(writer.buf@.subrange(33 * i, 33 * i + 33)) == Some(*vseq[i].1));
+					assert(decode_block(writer.buf@.subrange(33 * j, 33 * j + 33)) == Some(*vseq[j].1));
+					assert(self.lookup@.contains_key(*vseq[i].0) && self.lookup@[*vseq[i].0] == *vseq[i].1);
+					assert(self.lookup@.contains_key(*vseq[j].0) && self.lookup@[*vseq[j].0] == *vseq[j].1);
+					if *vseq[i].0 == *vseq[j].0 { assert(vseq[i] == vseq[j]); }
+				}
+			}
 		}
 //@loop 1 iter=it
-			invariant obeys_key_model::<TileCoord3>(), it.seq().len() == self.lookup@.len(), vseq.len() == it.index@, forall|i: int| #![trigger vseq[i]] #![trigger it.seq()[i]] 0 <= i < it.index@ ==> vseq[i] == it.seq()[i],
+			invariant obeys_key_model::<TileCoord3>(), it.seq().len() == self.lookup@.len(), it.seq().no_duplicates(), vseq.len() == it.index@, forall|i: int| #![trigger vseq[i]] #![trigger it.seq()[i]] 0 <= i < it.index@ ==> vseq[i] == it.seq()[i],
 				forall|i: int| 0 <= i < it.seq().len() ==> self.lookup@.contains_key(*(#[trigger] it.seq()[i]).0) && self.lookup@[*it.seq()[i].0] == *it.seq()[i].1,
 				forall|k: TileCoord3| self.lookup@.contains_key(k) ==> exists|i: int| 0 <= i < it.seq().len() && *(#[trigger] it.seq()[i]).0 == k,
 				writer.buf@.len() == 33 * it.index@,
@@ -149,6 +173,67 @@ impl BlockIndex {
 				}
 			}
 //@end
+}
+
+// C01 (versatiles block index): decoding the bytes `as_blob` writes gives back exactly the index that was written — the composition
+// of the two contracts above, for indexes of any size. `a`: the written index (filed under block coordinates), `b`: what from_blob returns.
+pub proof fn lemma_block_index_roundtrip(a: Map<TileCoord3, BlockDefinition>, bytes: Seq<u8>, b: Map<TileCoord3, BlockDefinition>, n: int)
+	requires n >= 0, bytes.len() == 33 * n,
+		forall|k: TileCoord3| a.contains_key(k) ==> block_coord(#[trigger] a[k]) == k,
+		// what as_blob ensures
+		forall|k: TileCoord3| a.contains_key(k) ==> listed(bytes, n, #[trigger] a[k]),
+		forall|i: int| 0 <= i < n ==> (#[trigger] rec_block(bytes, i)) is Some && in_index(a, rec_block(bytes, i).unwrap()),
+		forall|i: int, j: int| 0 <= i < j < n ==> block_coord((#[trigger] rec_block(bytes, i)).unwrap()) != block_coord((#[trigger] rec_block(bytes, j)).unwrap()),
+		// what from_blob ensures for an Ok result
+		forall|i: int| 0 <= i < bytes.len() / 33 ==> b.contains_key(block_coord(decode_block(#[trigger] bytes.subrange(33 * i, 33 * i + 33)).unwrap())),
+		forall|k: TileCoord3| b.contains_key(k) ==> listed(bytes, bytes.len() as int / 33, #[trigger] b[k]) && block_coord(b[k]) == k,
+	ensures a == b
+{
+	assert(bytes.len() as int / 33 == n) by (nonlinear_arith) requires bytes.len() == 33 * n;
+	assert forall|k: TileCoord3| #[trigger] a.contains_key(k) implies b.contains_key(k) && b[k] == a[k] by {
+		let i = choose|i: int| 0 <= i < n && #[trigger] decode_block(bytes.subrange(33 * i, 33 * i + 33)) == Some(a[k]);
+		assert(rec_block(bytes, i) == Some(a[k]));
+		assert(b.contains_key(block_coord(decode_block(bytes.subrange(33 * i, 33 * i + 33)).unwrap())));
+		let j = choose|j: int| 0 <= j < n && #[trigger] decode_block(bytes.subrange(33 * j, 33 * j + 33)) == Some(b[k]);
+		assert(rec_block(bytes, j) == Some(b[k]));
+		if i < j { assert(block_coord(rec_block(bytes, i).unwrap()) != block_coord(rec_block(bytes, j).unwrap())); }
+		if j < i { assert(block_coord(rec_block(bytes, j).unwrap()) != block_coord(rec_block(bytes, i).unwrap())); }
+	}
+	assert forall|k: TileCoord3| #[trigger] b.contains_key(k) implies a.contains_key(k) by {
+		let j = choose|j: int| 0 <= j < n && #[trigger] decode_block(bytes.subrange(33 * j, 33 * j + 33)) == Some(b[k]);
+		assert(rec_block(bytes, j) == Some(b[k]));
+		let k2 = choose|k2: TileCoord3| #[trigger] a.contains_key(k2) && a[k2] == rec_block(bytes, j).unwrap();
+		assert(block_coord(a[k2]) == k2);
+	}
+	assert forall|k: TileCoord3| a.dom().contains(k) <==> b.dom().contains(k) by { assert(a.contains_key(k) == a.dom().contains(k)); assert(b.contains_key(k) == b.dom().contains(k)); }
+	assert(a.dom() =~= b.dom());
+	assert(a =~= b);
+}
+
+// the same statement over the two real functions (a caller sees only their contracts): whatever from_blob accepts of as_blob's output IS the index
+pub fn thm_block_index_roundtrip(idx: &BlockIndex) -> (r: Result<BlockIndex, bool>)
+	requires obeys_key_model::<TileCoord3>(), idx.keyed()
+	ensures r is Ok ==> r.unwrap().lookup@ == idx.lookup@,
+		// as_blob's output is always accepted: Err(true) = a block could not be encoded, Err(false) = from_blob rejected the bytes — never
+		r != Err::<BlockIndex, bool>(false)
+{
+	match idx.as_blob() {
+		Ok(blob) => {
+			let ghost bytes = blob@;
+			match BlockIndex::from_blob(blob) {
+				Ok(back) => {
+					proof { lemma_block_index_roundtrip(idx.lookup@, bytes, back.lookup@, idx.lookup@.len() as int); }
+					Ok(back)
+				}
+				Err(_) => { proof { assert forall|i: int| 0 <= i < bytes.len() / 33 implies decode_block(#[trigger] bytes.subrange(33 * i, 33 * i + 33)) is Some by {
+						assert(bytes.len() as int / 33 == idx.lookup@.len()) by (nonlinear_arith) requires bytes.len() == 33 * idx.lookup@.len();
+						assert(rec_block(bytes, i) is Some); }
+					assert(bytes.len() % 33 == 0) by (nonlinear_arith) requires bytes.len() == 33 * idx.lookup@.len(); }
+					Err(false) }
+			}
+		}
+		Err(_) => Err(true),
+	}
 }
 } // verus!
 #[derive(Clone, Copy, PartialEq, Eq, Hash, Debug)] pub struct TileCoord3 { pub x: u32, pub y: u32, pub z: u8 }
